@@ -284,22 +284,58 @@ func c20g2Authenticated(c *eng.Ctx) {
 		if !c.Floor(f, "perform the verified rotation", len(sinks), 2) {
 			continue
 		}
-		var cmp []ssa.Value
-		for _, cl := range eng.Calls(f, `^crypto/subtle\.ConstantTimeCompare$`) {
-			a0, a1 := c17arg(cl, 0), c17arg(cl, 1)
-			for _, p := range [][2]ssa.Value{{a0, a1}, {a1, a0}} {
-				if ok, _ := c20g2rebuilt(p[0]); ok && c17loadOf(vk)(p[1]) {
-					cmp = append(cmp, cl.Value())
+		findCmp := func(g *ssa.Function) []ssa.Value {
+			var out []ssa.Value
+			for _, cl := range eng.Calls(g, `^crypto/subtle\.ConstantTimeCompare$`) {
+				a0, a1 := c17arg(cl, 0), c17arg(cl, 1)
+				for _, p := range [][2]ssa.Value{{a0, a1}, {a1, a0}} {
+					if ok, _ := c20g2rebuilt(p[0]); ok && c17loadOf(vk)(p[1]) {
+						out = append(out, cl.Value())
+					}
 				}
 			}
+			return out
 		}
+		cmpGuard := func(g *ssa.Function, cmp []ssa.Value) eng.Guard {
+			return c17guard("ConstantTimeCompare(rebuilt key, VerificationKey) == 1", c17rel(g, true, c17is(cmp...), c17const("1"), true))
+		}
+		cmp := findCmp(f)
 		c.Clause("R2", "C20.6")
 		site := "sink{perform the verified rotation} guard{ConstantTimeCompare(rebuilt key, VerificationKey) == 1}"
 		if len(cmp) == 0 {
-			c.Violation(f, site, f.Pos(), "no constant-time comparison of the key rebuilt from the verification shares with the pending VerificationKey", nil)
-			continue
+			// the reconstruction and comparison may have been extracted into a helper of the package that
+			// hands back the key the sinks install: follow it one level
+			followed := false
+			for _, sk := range sinks {
+				for _, a := range sk.Common().Args {
+					ex, ok := c17strip(a).(*ssa.Extract)
+					if !ok || ex.Index != 0 {
+						continue
+					}
+					k, ok := ex.Tuple.(*ssa.Call)
+					if !ok {
+						continue
+					}
+					h := k.Common().StaticCallee()
+					if h == nil || !eng.InPkg(h, "vault") || len(h.Blocks) == 0 {
+						continue
+					}
+					hc := findCmp(h)
+					if len(hc) == 0 || followed {
+						continue
+					}
+					followed = true
+					c.Cut(h, "rebuilt key handed back", eng.NonNilResultReturns(h, 0), cmpGuard(h, hc), nil)
+					c.Cut(f, "perform the verified rotation", instrsOf(sinks), eng.Guard{Desc: "success edge of the helper that compared the rebuilt key", Edges: eng.CallOKEdges(k), Pass: []ssa.Instruction{k}}, nil)
+				}
+			}
+			if !followed {
+				c.Undecided(f, site, f.Pos(), "no constant-time comparison of the key rebuilt from the verification shares with the pending VerificationKey in this function or in the helper that hands back the key: moved? the rule cannot be evaluated")
+				continue
+			}
+		} else {
+			c.Cut(f, "perform the verified rotation", instrsOf(sinks), cmpGuard(f, cmp), nil)
 		}
-		c.Cut(f, "perform the verified rotation", instrsOf(sinks), c17guard("ConstantTimeCompare(rebuilt key, VerificationKey) == 1", c17rel(f, true, c17is(cmp...), c17const("1"), true)), nil)
 		c.Clause("R5", "C20.6")
 		for _, s := range sinks {
 			var key ssa.Value
